@@ -6,10 +6,12 @@
 //
 // Case line:   run|guns <cancel> <pool> [<pool> ...]   (guns: same run, judged on gun Close bookkeeping)
 //
-//	<cancel> = none | pre | after | shoot<k> | timed<us>
+//	<cancel> = none | pre | after | shoot<k> | timed<us> | recv<k>
 //	           pre: ctx cancelled before Run; shoot<k>: cancel() from inside pool 0's k-th Shoot,
 //	           which then blocks until Run has returned; timed<us>: cancel() from another
-//	           goroutine <us> microseconds after Run was called; after: cancel() once Run returned.
+//	           goroutine <us> microseconds after Run was called; after: cancel() once Run returned;
+//	           recv<k>: cancel() at the moment Engine.Run has taken the k-th pool result from its channel (from inside
+//	           the engine's own "Pool awaited" log call, i.e. between the receive and the look at ctx.Done that follows it).
 //	<pool>   = n,shared,ammo,tokens,fault,k,gate,ctxret
 //	           n instances (startup once(n)); shared 1 = one RPS schedule for the pool, 0 = per instance;
 //	           ammo = number of ammo (-1 endless); tokens = once(tokens) (-1 = unlimited 1h schedule);
@@ -647,6 +649,41 @@ func (pm *poolMocks) newSchedule() (core.Schedule, error) {
 	return schedule.NewOnce(int64(pm.plan.tokens)), nil
 }
 
+// cancelCore passes every entry on and, right after the k-th "Pool awaited" entry of Engine.Run was written, makes
+// the caller's cancel() -- a deterministic schedule of "the caller cancels just when a pool's result arrives".
+type cancelCore struct {
+	zapcore.Core
+	st *cancelAtRecv
+}
+
+type cancelAtRecv struct {
+	at  int
+	n   atomic.Int64
+	rs  *runState
+	log *zap.Logger
+}
+
+func (c *cancelCore) With(f []zapcore.Field) zapcore.Core {
+	return &cancelCore{Core: c.Core.With(f), st: c.st}
+}
+
+func (c *cancelCore) Check(e zapcore.Entry, ce *zapcore.CheckedEntry) *zapcore.CheckedEntry {
+	if c.Enabled(e.Level) {
+		return ce.AddCore(e, c)
+	}
+	return ce
+}
+
+func (c *cancelCore) Write(e zapcore.Entry, f []zapcore.Field) error {
+	err := c.Core.Write(e, f)
+	if e.Message == "Pool awaited" && c.st.at > 0 && int(c.st.n.Add(1)) == c.st.at {
+		c.st.log.Info("verif-cancel-begin")
+		c.st.rs.cancel()
+		c.st.log.Info("verif-cancel-end")
+	}
+	return err
+}
+
 // ---- classification of errors ----
 
 func classify(err error) string {
@@ -844,7 +881,15 @@ func runCase(line string) string {
 		plans = append(plans, parsePool(s))
 	}
 	obsCore, logs := observer.New(zap.DebugLevel)
-	log := zap.New(obsCore)
+	recvSt := &cancelAtRecv{}
+	var log *zap.Logger
+	if strings.HasPrefix(cancelPlan, "recv") {
+		recvSt.at, _ = strconv.Atoi(cancelPlan[4:])
+		recvSt.log = zap.New(obsCore)
+		log = zap.New(&cancelCore{Core: obsCore, st: recvSt})
+	} else {
+		log = zap.New(obsCore)
+	}
 	ctx, cancel := context.WithCancel(context.Background())
 	defer cancel()
 	runtime.GC()
@@ -852,6 +897,7 @@ func runCase(line string) string {
 	base := runtime.NumGoroutine()
 
 	rs := &runState{log: log, cancel: cancel, release: make(chan struct{})}
+	recvSt.rs = rs
 	if strings.HasPrefix(cancelPlan, "shoot") {
 		rs.cancelAt, _ = strconv.Atoi(cancelPlan[5:])
 	}
@@ -1263,6 +1309,23 @@ func gen(r *vh.Rand, tier string) []string {
 		gwCase("shoot2", "ok", "ok", []string{okSvc(), okSvc()}, 0)
 		gwCase(r.Pick([]string{"shoot1", "timed300"}), "ok", "ok", []string{"e5", okSvc()}, 0)
 		gwCase("pre", "ok", "ok", []string{okSvc()}, 0)
+		// the caller cancels at the very moment Engine.Run has taken a pool's result (failing or nil) from its channel
+		for _, ft := range []string{"gun", "warm", "sched", "bind", "panic", "prov", "aggr", "none"} {
+			p := poolPlan{n: r.Range(1, 3), shared: true, ammo: r.Range(2, 8), tokens: r.Range(2, 6), fault: ft, ctxret: r.Bool()}
+			switch ft {
+			case "bind", "panic":
+				p.k = r.Range(1, 2)
+				p.shared = r.Bool()
+			case "prov", "aggr":
+				p.k = r.Range(0, 2)
+			}
+			np := r.Range(1, 2)
+			line := fmt.Sprintf("run recv%d %s", r.Range(1, np), poolStr(p))
+			if np == 2 {
+				line += " " + poolStr(healthy)
+			}
+			out = append(out, line)
+		}
 		// random plans
 		nr := 40
 		for i := 0; i < nr; i++ {
